@@ -49,6 +49,7 @@ func main() {
 			"'cutoff' scenarios: 500..600 missing slots older than the acceptance range (refused for ever) in front of 10..30 lost slots inside it; 'fdshort' scenarios: a transient descriptor shortage makes accept() fail on the server, then heals; " +
 			"'udpdown' scenarios: the UDP port the device reports to is really closed while its newest rows are first reported and open again before the final round; " +
 			"'ownround' scenarios: the client's own background round (stale stamp, first round refused) is the fault-free round; new rows appear exactly in the report-loop pass that launches it (send.loop hook) and their originals are lost; " +
+			"'hdrrestart' scenarios: readings reported with losses, one rotation, client restart on an energy file without rows inside the server window (history kept), the client's own background round is the fault-free round; " +
 			"'twoserver' scenarios: two real servers hold the device, every original lost, round A re-sends 300..500 reports to one server while an overlapping round B is refused there and completes on the other; each server whose round completed is judged. " +
 			"Non-trivial = at least one required slot was absent on the server immediately before the final round and present after it (the recovery path was really exercised); " +
 			"distinct by (slot classes, per-slot loss history, sync fates, event).",
@@ -87,6 +88,8 @@ func main() {
 			c.Require("fdshort_scenarios_judged", 2)
 			c.Require("udpdown_scenarios_judged", 3)
 			c.Require("ownround_scenarios_judged", 3)
+			c.Require("hdrrestart_scenarios_judged", 3)
+			c.Require("hdrrestart.lost_readings_recovered_after_header_only_restart", 3)
 			c.Require("ownround.rows_first_reported_in_the_launching_pass_and_lost", 3)
 			c.Require("event.fdshort_accept_failures_seen", 2)
 			c.Require("two_server.scenarios_judged", 3)
@@ -127,6 +130,7 @@ func plan(tier string, seed int64) []run.Batch {
 		add("fdshort", 0, 3, 200)
 		add("udpdown", 0, 4, 200)
 		add("ownround", 0, 4, 200)
+		add("hdrrestart", 0, 4, 200)
 		x := int(uint64(seed)*2654435761%uint64(1<<(2*exhaustiveM))) &^ 63
 		for i := 0; i < 256; i += 64 {
 			add("exhaustive", (x+i)%(1<<(2*exhaustiveM)), (x+i)%(1<<(2*exhaustiveM))+64, 240)
@@ -151,6 +155,7 @@ func plan(tier string, seed int64) []run.Batch {
 	for i := 0; i < 40; i += 10 {
 		add("udpdown", i, i+10, 240)
 		add("ownround", i, i+10, 240)
+		add("hdrrestart", i, i+10, 240)
 	}
 	for i := 0; i < 1<<(2*exhaustiveM); i += 64 {
 		add("exhaustive", i, i+64, 240)
@@ -1153,6 +1158,11 @@ func child(b run.Batch, r *ev.Result) {
 	fmt.Sscan(b.P("to"), &to)
 	for i := from; i < to; i++ {
 		sc := &scenario{Kind: b.Kind, Index: i}
+		if b.Kind == "hdrrestart" {
+			sc.Seed = b.Seed*1000003 + 680000 + int64(i)
+			runHdrRestart(sc, b, r)
+			continue
+		}
 		if b.Kind == "ownround" {
 			sc.Seed = b.Seed*1000003 + 650000 + int64(i)
 			runOwnRound(sc, b, r)
